@@ -183,8 +183,18 @@ inductive RRes where
   | fuel                 -- model artefact: frame loop ran out of fuel (unreachable with enough fuel)
 deriving DecidableEq, Repr
 
+/-- The optional `TunnelStateTracker` of a stream: `none` = built with `NewFrameStream` (nil tracker),
+`some f` = built with `NewFrameStreamWithTracker`, `f s` = what `IsTunnelClosed(s)` answers. -/
+abbrev Tracker := Option (Bytes → Bool)
+
+/-- `s.tracker != nil && s.tracker.IsTunnelClosed(id)` -/
+def Tracker.closed (t : Tracker) (s : Bytes) : Bool :=
+  match t with
+  | some f => f s
+  | none => false
+
 /-- The `for { … }` loop of `FrameStream.Read`: read frames until one is for us.  `p = len(p)`. -/
-def nextFrame : Nat → FS → Nat → RRes × FS
+def nextFrame (trk : Tracker) : Nat → FS → Nat → RRes × FS
   | 0, st, _ => (.fuel, st)
   | k + 1, st, p =>
     let r := readFrame st.conn
@@ -194,9 +204,12 @@ def nextFrame : Nat → FS → Nat → RRes × FS
       if closedErr e then (.eof, { st1 with readEOF := true }) else (.err e, st1)
     | .frame f =>
       let st1 := { st with conn := r.rest }
-      if f.id != st.tunnelID then nextFrame k st1 p                       -- other tunnel: dropped
+      if f.id != st.tunnelID then
+        -- otherTunnelIDStr := TunnelIDToString(tunnelID); residual frame of a closed tunnel: dropped;
+        -- frame of any other tunnel: dropped
+        if trk.closed (tunnelIDToString f.id) then nextFrame trk k st1 p else nextFrame trk k st1 p
       else if f.ty == crossnode.FrameTypeData then
-        if f.data.length == 0 then nextFrame k st1 p
+        if f.data.length == 0 then nextFrame trk k st1 p
         else
           let n := min p f.data.length                                     -- n = copy(p, s.readBuf)
           (.data (f.data.take p),
@@ -204,28 +217,28 @@ def nextFrame : Nat → FS → Nat → RRes × FS
            else { st1 with readBuf := f.data, readOff := n })
       else if f.ty == crossnode.FrameTypeEOF then (.eof, { st1 with readEOF := true })
       else if f.ty == crossnode.FrameTypeClose then (.eof, { st1 with readEOF := true })
-      else nextFrame k st1 p                                               -- default: dropped
+      else nextFrame trk k st1 p                                           -- default: dropped
 
 /-- `FrameStream.Read(p)` with `len(p) = p`; `fuel` bounds the frames skipped by one call. -/
-def FS.read (fuel : Nat) (st : FS) (p : Nat) : RRes × FS :=
+def FS.read (trk : Tracker) (fuel : Nat) (st : FS) (p : Nat) : RRes × FS :=
   if st.readEOF then (.eof, st)
   else if st.readOff < st.readBuf.length then
     let d := (st.readBuf.drop st.readOff).take p                           -- copy(p, s.readBuf[s.readOff:])
     let off := st.readOff + d.length
     (.data d, if off ≥ st.readBuf.length then { st with readBuf := [], readOff := 0 }
               else { st with readOff := off })
-  else nextFrame fuel st p
+  else nextFrame trk fuel st p
 
 /-- Successive `Read` calls with the given buffer sizes; stops after the first error. -/
-def readLoop (fuel : Nat) : FS → List Nat → List RRes × FS
+def readLoop (trk : Tracker) (fuel : Nat) : FS → List Nat → List RRes × FS
   | st, [] => ([], st)
   | st, p :: ps =>
-    let r := FS.read fuel st p
+    let r := FS.read trk fuel st p
     match r.1 with
     | .err e => ([.err e], r.2)
     | .fuel => ([.fuel], r.2)
     | x =>
-      let rr := readLoop fuel r.2 ps
+      let rr := readLoop trk fuel r.2 ps
       (x :: rr.1, rr.2)
 
 /-- Result of `FrameStream.Write`. -/
@@ -307,13 +320,37 @@ deriving DecidableEq, Repr
 
 /-- The scenario: tunnel id string `me`; the sender's events; the wire cut into `chunks`
 (by `cut`, any function returning a chunking of its argument), ended by `tail`;
-the receiver (whose own write side is already half-closed iff `rw`) reads with buffer sizes `ps`. -/
-def runStream (me : Bytes) (evs : List Ev) (cut : Bytes → List Bytes) (tail : Tail) (rw : Bool)
+the receiver (built with tracker `trk`, its own write side already half-closed iff `rw`) reads with
+buffer sizes `ps`. -/
+def runStream (trk : Tracker) (me : Bytes) (evs : List Ev) (cut : Bytes → List Bytes) (tail : Tail) (rw : Bool)
     (ps : List Nat) : StObs :=
   let w := runWriter (FS.init (tunnelIDFromString me) ⟨[], .eof⟩) evs
   let wire := w.2.out
   let r0 : FS := { FS.init (tunnelIDFromString me) ⟨cut wire, tail⟩ with writeEOF := rw }
-  let rr := readLoop (wire.length + 1) r0 ps
+  let rr := readLoop trk (wire.length + 1) r0 ps
   ⟨w.1, rr.1, rr.2.broken, w.2.broken⟩
+
+/-! ### A stream on a pooled connection (`NodeConnectionPool.Get` after `Release`) -/
+
+/-- `Conn.IsHealthy` as the pool applies it to an idle connection; `arrived` = inbound bytes already
+received.  Nothing pending: the 1 ms probe read times out, the connection is healthy.  Pending bytes
+(residual frames of the tunnel that used the connection before): not reusable — the probe has consumed
+a byte, a frame stream on this connection would be misaligned.  (Repaired code; as found the probe
+answered "healthy" after eating the byte.) -/
+def isHealthy (arrived : Bytes) : Bool := arrived.isEmpty
+
+structure PlObs where
+  reused : Bool
+  st : StObs
+deriving DecidableEq, Repr
+
+/-- The previous tunnel's late frames `residual` reach the idle connection, the connection is
+released and `Get` is called again for OUR tunnel, whose scenario then runs on the connection handed
+out: the idle one if healthy (its inbound bytes are then exactly our scenario's wire, nothing is
+pending), otherwise a fresh one (the idle one is closed, the residual frames go with it). -/
+def runPool (trk : Tracker) (me : Bytes) (residual evs : List Ev) (cut : Bytes → List Bytes) (tail : Tail)
+    (rw : Bool) (ps : List Nat) : PlObs :=
+  let r := (runWriter (FS.init (tunnelIDFromString me) ⟨[], .eof⟩) residual).2.out
+  ⟨isHealthy r, runStream trk me evs cut tail rw ps⟩
 
 end Tunnox.C10
